@@ -39,9 +39,12 @@ def partitions(tier):
                 continue
             if cmd == 3:
                 top = M.INTERNAL_MAX[old]
-                for lo_t in range(0, top + 1, 4):
+                for lo_t in range(0, top + 1, 2):
+                    hi_t = min(top, lo_t + 1)
+                    wakes = any(lo_t <= w <= hi_t for w in (22, 32))  # parked commands only matter for the wake types
                     parts.append(dict(ids, name="recv-%s-%s-cmd3-t%d" % (old, new_name, lo_t), fn="sym_recv", old=old, new=new, cmd=3,
-                                      tlo=lo_t, thi=min(top, lo_t + 3), maxch=0, values=False, sym_reboot=False, budget=600 if q else 3000, cost=5))
+                                      tlo=lo_t, thi=hi_t, maxch=0, values=False, sym_reboot=False, noparked=not wakes,
+                                      budget=600 if q else 3000, cost=5 if lo_t < 4 else 3))
                 continue
             parts.append(dict(ids, name="recv-%s-%s-cmd%d" % (old, new_name, cmd), fn="sym_recv", old=old, new=new, cmd=cmd,
                               sym_reboot=(cmd == 1), sym_sleep=False, noparked=True, budget=600 if q else 3000, cost=3))
